@@ -13,7 +13,7 @@ from .common import log
 from .gamma import Gamma
 
 NANI = 1 << 29  # integer code of NaN / undefined for the scaled values
-FAMS = [("ints", "int"), ("shift", "int"), ("str", "int"), ("npint", "npint"), ("descset", "int"), ("collide", "int"), ("bigint", "int")]
+FAMS = [("ints", "int"), ("shift", "int"), ("str", "int"), ("npint", "npint"), ("descset", "int"), ("collide", "int"), ("bigint", "int"), ("negint", "int")]
 
 
 def scaled(x):
@@ -88,7 +88,7 @@ def _worker(args):
         variants = obscore.edge_id_variants(j, rng)
         NEW = 60  # abstract id of one more edge, added with an automatic id after construction
         extra = sorted(j["nodes"][:2])
-        for ri in range(6):
+        for ri in range(8):
             g = Gamma(*FAMS[ri % len(FAMS)])
             vname, emap = variants[ri % len(variants)]
             if ri % 2 == 1:
@@ -153,7 +153,7 @@ def _worker(args):
             except Exception as ex:  # noqa: BLE001
                 errs.append(f"SimplicialComplex.{hg.classify(ex)}({g.name})")
                 scs.append([[-7]])
-        out.append({"rid": f"s{base + k}", "what": f"shape {base + k} x 6 realisations", "st": st, "real": real, "scs": scs,
+        out.append({"rid": f"s{base + k}", "what": f"shape {base + k} x 8 realisations", "st": st, "real": real, "scs": scs,
                     "anom": sorted(set(errs))})
     return out
 
@@ -171,7 +171,7 @@ def run(tier, seed_):
     with ProcessPoolExecutor(max_workers=jobs) as ex:
         for part in ex.map(_worker, [(shapes[i::jobs], i * 100003, seed_) for i in range(jobs) if shapes[i::jobs]]):
             recs += part
-    log(f"[C09] {len(recs)} abstract networks x 6 realisations ({t():.0f}s)")
+    log(f"[C09] {len(recs)} abstract networks x 8 realisations ({t():.0f}s)")
 
     def selftest(records, bad):
         r0 = next(r for r in records if r["rid"] not in bad and len(r["real"][1]["lcc"]) >= 2
